@@ -135,3 +135,44 @@ impl ByteSeq {
         ensures r@ == self@,
     { unimplemented!() }
 }
+
+// ---- Message framing (sdk/src/messages/send_messages.rs `Message`): stand-ins -------------------------------------------------------------
+// The user-headers map `HashMap<HeaderKey, HeaderValue>` is OPAQUE here (typemap -> `Headers`); its codec pair is under contract in
+// unit codec_headers (spec vx/prelude/wire_headers.rs). What this unit ASSUMES about it is exactly what codec_headers proves
+// ([C13.enc.Headers], [C13.enc.Headers.order], [C13.rt.Headers], "an empty map is the empty byte string", "every entry has at
+// least 9 bytes"), restated over an abstract content `HdrAbs`:
+#[verifier::external_body]
+pub struct Headers { p: u8 }
+#[verifier::external_body]
+pub struct HdrAbs { p: u8 }
+pub uninterp spec fn hdr_view(h: Headers) -> HdrAbs;                 // the map's content (codec_headers: hmap_view)
+pub uninterp spec fn hdr_valid(h: Headers) -> bool;                  // keys/values 1..=255 bytes (codec_headers: hmap_valid)
+pub uninterp spec fn hdr_enc_ok(a: HdrAbs, b: Seq<u8>) -> bool;      // "b is an encoding of a" for SOME entry order
+pub uninterp spec fn hdr_bytes(h: Headers) -> Seq<u8>;               // the encoding in this map object's iteration order
+pub uninterp spec fn hdr_none() -> HdrAbs;                           // the content without entries
+impl Headers {
+    #[verifier::external_body]
+    pub fn to_bytes(&self) -> (r: ByteSeq)
+        ensures r@ == hdr_bytes(*self), hdr_valid(*self) ==> hdr_enc_ok(hdr_view(*self), r@),
+    { unimplemented!() }
+    #[verifier::external_body]
+    pub fn from_bytes(bytes: ByteSeq) -> (r: Result<Headers, IggyError>)
+        requires exists|a: HdrAbs| hdr_enc_ok(a, bytes@),
+        ensures forall|a: HdrAbs| hdr_enc_ok(a, bytes@) ==> (r matches Ok(m) && hdr_view(m) == a),
+    { unimplemented!() }
+}
+// the empty byte string is the encoding of the empty content and of nothing else; nothing else encodes to it
+#[verifier::external_body]
+pub proof fn axiom_hdr_empty()
+    ensures
+        hdr_enc_ok(hdr_none(), Seq::<u8>::empty()),
+        forall|a: HdrAbs, b: Seq<u8>| #[trigger] hdr_enc_ok(a, b) ==> (b.len() == 0 <==> a == hdr_none()),
+{}
+// uuid::Uuid::now_v7().to_u128_le(): some fresh id (nothing is known about it)
+pub struct Uuid { pub p: u8 }
+impl Uuid {
+    #[verifier::external_body]
+    pub fn now_v7() -> (r: Uuid) { unimplemented!() }
+    #[verifier::external_body]
+    pub fn to_u128_le(&self) -> (r: u128) { unimplemented!() }
+}
